@@ -496,7 +496,7 @@ Proof.
   rewrite run_app. cbn [fst snd]. rewrite map_app.
   destruct (get_fields fs m2 [] [] Hwf2 ltac:(cbn [m2 t_size]; lia) Hok Hp2 eq_refl) as (Hg1 & Hg2).
   unfold outs in Hg1. rewrite Hg1, Hg2. f_equal.
-  cbn [tm_run tm_step map fst snd tm_has_more advance t_off t_size m2].
+  cbn [tm_run tm_step map fst snd]. unfold tm_has_more, advance, m2; cbn [t_off t_size].
   replace (0 + lenN (enc_all fs) <? t_size m1) with false by lia. reflexivity.
 Qed.
 
@@ -504,3 +504,44 @@ Qed.
 Lemma check_type_spec m t :
   tm_check_type m t = (if (tm_raw_type m =? t)%Z then TOk tt else TThrow, m).
 Proof. unfold tm_check_type. destruct (tm_raw_type m =? t)%Z; reflexivity. Qed.
+
+(* ---- combined statements used by Properties_C58.v ----------------------------------------------- *)
+Lemma layout_constants :
+  tm_int_size = 4 /\ tm_little_endian = true /\ tm_int_max = 2147483647%Z /\ tm_int_min = (-2147483648)%Z /\
+  tm_raw_size = tm_max_size /\ tm_raw_size <= tm_offset_max /\ tm_raw_size <= tm_size_t_max /\
+  int_bytes 1 = [1; 0; 0; 0] /\ int_bytes (-2) = [254; 255; 255; 255].
+Proof. repeat split; vm_compute; congruence. Qed.
+
+Lemma get_raw_iff m n : wf m -> n <> 0 ->
+  (readable m n /\ tm_get_raw m n = (TOk (segment m n), advance m n) /\
+   lenN (segment m n) = n /\ t_off m + n <= t_size m /\ t_size m <= lenN (t_raw m)) \/
+  (~ readable m n /\ tm_get_raw m n = (TThrow, m)).
+Proof.
+  intros Hwf Hn. destruct (readable_dec m n) as [Hr|Hr].
+  - left. split; [assumption|]. split; [apply get_raw_ok; assumption|]. split; [apply segment_len; assumption|].
+    destruct Hr as (H1 & H2 & H3). unfold wf in Hwf. lia.
+  - right. split; [assumption | apply get_raw_throw; assumption].
+Qed.
+
+Lemma get_int_iff m : wf m ->
+  (readable m 4 /\ tm_get_int m = (TOk (bytes_int (segment m 4)), advance m 4)) \/
+  (~ readable m 4 /\ tm_get_int m = (TThrow, m)).
+Proof.
+  intros Hwf. destruct (readable_dec m 4) as [Hr|Hr]; [left | right]; (split; [assumption|]).
+  - apply get_int_ok; assumption.
+  - apply get_int_throw; assumption.
+Qed.
+
+Lemma put_raw_iff m b : wf m -> lenN b <> 0 ->
+  (writable m (lenN b) /\ tm_put_raw m b = (TOk tt, appended m b) /\ wf (appended m b) /\
+   payload (appended m b) = payload m ++ b /\ t_size m + lenN b <= lenN (t_raw m)) \/
+  (~ writable m (lenN b) /\ tm_put_raw m b = (TThrow, m)).
+Proof.
+  intros Hwf Hn. destruct (writable_dec m (lenN b)) as [Hw|Hw].
+  - left. split; [assumption|]. split; [apply put_raw_ok; assumption|]. split; [apply appended_wf; assumption|].
+    split; [apply appended_payload; assumption|]. destruct Hw as (H1 & H2). unfold wf in Hwf. lia.
+  - right. split; [assumption | apply put_raw_throw; assumption].
+Qed.
+
+Lemma put_string_too_long m s : tm_max_size < lenN s -> tm_put_string m s = (TThrow, m).
+Proof. intros H. unfold tm_put_string. replace (lenN s <=? tm_max_size) with false by lia. reflexivity. Qed.
